@@ -290,7 +290,9 @@ def _parse_directive_options(
             value = None
         try:
             converted_value = converter(value)
-        except (ValueError, TypeError) as error:
+        except Exception as error:
+            # converters signal an invalid value by ValueError or TypeError,
+            # but some fail differently (e.g. AttributeError on an empty value)
             validation_errors.append(
                 ParseWarnings(
                     f"Invalid option value for {name!r}: {value}: {error}",
